@@ -1,4 +1,5 @@
 """C13 — multi-line search reports exactly the lines covered by matches."""
+import itertools
 from .. import cfg as C
 from ..flow import ExprBuilder, mentions_field, mentions_call, is_call, walk, walk_until, show, \
     cond_switches, guarded, X
@@ -103,27 +104,48 @@ def run(ctx):
         f = facts.fn(ML + "::advance")
         eb = ExprBuilder(f)
         CORE_ = "grep_searcher::searcher::core::Core"
+        # value table: the match ends at 5; is_empty ∈ {0,1}; the slice is 5 (the match ends the input) or 9 bytes long.
+        # Core::pos() answers what the last set_pos() stored. The outcome is the position the cursor is left at: the end of
+        # the match, one byte further exactly after an empty match that is not at the end of the input.
+        from ..flow import Sccp as _Sccp, combinator_model as _cm, I, V
         sp = f.calls_to(CORE_ + "::set_pos")
-        emp = cond_switches(f, lambda e: is_call(e, "grep_matcher::Match::is_empty"), eb)
-        ltl = cond_switches(f, lambda e: e.k == "bin" and e[1] == "Lt" and mentions_call(e, CORE_ + "::pos"), eb)
-        first = [c for c in sp if is_call(strip_(eb.operand(c.args[1])), "grep_matcher::Match::end")]
-        bump = [c for c in sp if c not in first]
         others = [c for c in f.calls() if c.path.startswith("grep_searcher::lines::")]
-        if len(first) == 1 and not C.all_paths_pass(f, [0], {first[0].bb}, f.return_blocks()) and not others:
-            r.ok("end", "pos ← range.end() on every path", fn=f)
-        else:
+        wrong_end, wrong_empty = [], []
+        for emp_, ln in itertools.product((0, 1), (5, 9)):
+            state = {"pos": None}
+
+            def fm(owner, name, ln=ln):
+                if owner == ML and name == "slice":
+                    return I(ln)
+                return None
+
+            def inner(call, argv, emp_=emp_, state=state):
+                if call.path == "grep_matcher::Match::end":
+                    return I(5)
+                if call.path == "grep_matcher::Match::is_empty":
+                    return I(emp_)
+                if call.path == CORE_ + "::set_pos":
+                    state["pos"] = argv[1] if len(argv) > 1 else None
+                    return None
+                if call.path == CORE_ + "::pos":
+                    return state["pos"]
+                if call.path in ("[T]::len", "core::slice::<impl [T]>::len"):
+                    return argv[0] if argv and argv[0] is not None and argv[0][0] == "i" else None
+                return None
+            _Sccp(f, call_model=_cm(facts, inner, field_model=fm), field_model=fm).run([(0, {})])
+            want = I(6) if (emp_ and ln > 5) else I(5)
+            if state["pos"] != want:
+                (wrong_empty if emp_ else wrong_end).append("is_empty=%d len=%d ⇒ cursor at %s, specified %s" % (emp_, ln, state["pos"], want[1]))
+        if not sp or others or wrong_end:
             r.bad("end", "MultiLine::advance does not resume exactly at the end of the match (a later match on the same line "
-                  "could be skipped)", fn=f, construct="advance")
-        okb = len(bump) == 1 and emp and ltl and not guarded(f, [bump[0].bb], emp, True) and not guarded(f, [bump[0].bb], ltl, True)
-        if okb:
-            e = eb.operand(bump[0].args[1])
-            okb = any(x.k == "bin" and x[1] in ("Add", "AddWithOverflow") and any(y.k == "const" and y[1] == 1 for y in (x[2], x[3]))
-                      and mentions_call(x, CORE_ + "::pos") for x in walk(e))
-        if okb:
-            r.ok("empty", "empty match ∧ pos < len ⇒ pos + 1 (and only then)", fn=f)
+                  "could be skipped)%s" % (" [%s]" % wrong_end[0] if wrong_end else ""), fn=f, construct="advance")
         else:
-            r.bad("empty", "after an empty match the scan does not advance by exactly one byte (only when not at the end)", fn=f,
-                  construct="advance")
+            r.ok("end", "pos ← range.end() after a non-empty match", fn=f)
+        if wrong_empty or not sp:
+            r.bad("empty", "after an empty match the scan does not advance by exactly one byte (only when not at the end)%s"
+                  % (" [%s]" % wrong_empty[0] if wrong_empty else ""), fn=f, construct="advance")
+        else:
+            r.ok("empty", "empty match ∧ end < len ⇒ end + 1 (and only then)", fn=f)
         # both delivery routines advance with the match they just found
         for name in ("sink", "sink_matched_inverted"):
             g = facts.fn(ML + "::" + name)
@@ -171,7 +193,8 @@ def run(ctx):
         # its line's terminator drags the following line into the reported range.
         FIND = ("bstr::ext_slice::ByteSlice::find_byte", "memchr::memchr::memchr", "memchr::memchr")
         n = 0
-        for f in facts.fns_in("grep_searcher::"):
+        # (definitions are enumerated, so a helper that was spliced into its callers is looked at on its own as well)
+        for f in facts.fns_in("grep_searcher::") + [g_ for p_, g_ in facts.spliced_fns.items() if g_ is not None and p_.startswith("grep_searcher::")]:
             if f.kind == "closure" or "::tests::" in f.path or f.d.get("output") != "grep_matcher::Match":
                 continue
             eb = ExprBuilder(f)
